@@ -67,7 +67,8 @@ type OptDef struct {
 	Desc       string      `json:"desc,omitempty"`
 	ArgName    string      `json:"argname,omitempty"`
 	SplitAlias bool        `json:"split_alias,omitempty"` // one opt.Alias(...) modifier per alias instead of a single call
-	Preset     [][2]string `json:"preset,omitempty"`      // map kind, *Var form: entries the caller's map already holds when it is declared
+	Preset     [][2]string `json:"preset,omitempty"`      // map kind: entries the caller's map already holds (*Var form: when it is declared; otherwise put into the returned map right after the declaration)
+	PreValue   []string    `json:"prevalue,omitempty"`    // SetValue(name, PreValue...) is called after the declarations, before Parse (a value from a config file)
 }
 
 // CmdDef declares one command level (the root is a CmdDef too).
@@ -91,10 +92,12 @@ type Def struct {
 	Mode         int      `json:"mode"`    // 0 normal, 1 bundling, 2 singleDash
 	Unknown      int      `json:"unknown"` // 0 fail, 1 warn, 2 pass
 	RequireOrder bool     `json:"require_order,omitempty"`
-	LateMode     bool     `json:"late_mode,omitempty"`  // SetMode is called after all options and commands have been declared
-	EarlyHelp    bool     `json:"early_help,omitempty"` // Help() is rendered (and discarded) after every declaration step
-	LateEnv      bool     `json:"late_env,omitempty"`   // the environment variables are set after getoptions.New() and before the options are declared
-	Help         string   `json:"help,omitempty"`       // name of the help command/option, "" = none
+	LateMode     bool     `json:"late_mode,omitempty"`    // SetMode is called after all options and commands have been declared
+	EarlyHelp    bool     `json:"early_help,omitempty"`   // Help() is rendered (and discarded) after every declaration step
+	LateEnv      bool     `json:"late_env,omitempty"`     // the environment variables are set after getoptions.New() and before the options are declared
+	MapLower     bool     `json:"map_lower,omitempty"`    // SetMapKeysToLower()
+	WriterFails  bool     `json:"writer_fails,omitempty"` // every Write on getoptions.Writer reports an error (closed stderr); what was attempted is still recorded
+	Help         string   `json:"help,omitempty"`         // name of the help command/option, "" = none
 	HelpAliases  []string `json:"help_aliases,omitempty"`
 }
 
@@ -111,6 +114,9 @@ func (d *Def) ConfigString() string {
 	}
 	if d.LateEnv {
 		s += "/env-set-after-New"
+	}
+	if d.WriterFails {
+		s += "/Writer-fails"
 	}
 	return s
 }
@@ -262,6 +268,14 @@ type Prog struct {
 
 type ctxKey struct{}
 
+// failingWriter records what is written and reports a failure for every Write.
+type failingWriter struct{ rec *bytes.Buffer }
+
+func (w failingWriter) Write(b []byte) (int, error) {
+	w.rec.Write(b)
+	return 0, errors.New("write failed: broken pipe")
+}
+
 // Build constructs the real program for def with the given environment variables set.
 func Build(def *Def, env map[string]string) *Prog {
 	p := &Prog{Def: def, W: &bytes.Buffer{}, Comp: &bytes.Buffer{}}
@@ -275,6 +289,9 @@ func Build(def *Def, env map[string]string) *Prog {
 		setEnv()
 	}
 	getoptions.Writer = p.W
+	if def.WriterFails {
+		getoptions.Writer = failingWriter{p.W}
+	}
 	getoptions.VerifSetCompletionWriter(p.Comp)
 	getoptions.VerifSetExit(func(code int) { p.Exits = append(p.Exits, code) })
 	p.ctx = context.WithValue(context.Background(), ctxKey{}, p)
@@ -290,8 +307,18 @@ func Build(def *Def, env map[string]string) *Prog {
 	if def.RequireOrder {
 		opt.SetRequireOrder()
 	}
+	if def.MapLower {
+		opt.SetMapKeysToLower()
+	}
 	p.Root = &level{def: &def.Root, opt: opt}
 	p.build(p.Root)
+	for _, l := range p.Levels {
+		for _, h := range l.opts {
+			if len(h.def.PreValue) > 0 {
+				_ = l.opt.SetValue(h.def.Name, h.def.PreValue...)
+			}
+		}
+	}
 	if def.LateMode {
 		opt.SetMode(getoptions.Mode(def.Mode))
 	}
@@ -312,6 +339,13 @@ func (p *Prog) Reset() {
 	p.Exits = nil
 	p.W.Reset()
 	p.Comp.Reset()
+}
+
+// CancelCtx makes the context handed to Dispatch one that is already cancelled.
+func (p *Prog) CancelCtx() {
+	ctx, cancel := context.WithCancel(p.ctx)
+	cancel()
+	p.ctx = ctx
 }
 
 // Close removes the environment variables set by Build.
@@ -521,6 +555,9 @@ func declare(opt *getoptions.GetOpt, o *OptDef, path string, p *Prog) *optHandle
 			opt.StringMapVar(h.pmv, o.Name, o.Min, o.Max, fns...)
 		} else {
 			h.pm = opt.StringMap(o.Name, o.Min, o.Max, fns...)
+			for _, kv := range o.Preset {
+				h.pm[kv[0]] = kv[1]
+			}
 		}
 	}
 	return h
